@@ -94,6 +94,8 @@ def tx_cells(x, pos, layout, rnd=None, asset=ASSET, width=None, uid=None):
             vals["fiat_out_no_fee"] = cn(x["vout"])
         if x["vfee"] >= 0:
             vals["fiat_fee"] = cn(x["vfee"])
+        if (pos + x["amt"]) % 2 == 0 and x["amt"] + x["fee"] > 0:
+            vals["crypto_out_with_fee"] = cn(x["amt"] + x["fee"])      # the optional total, filled in on some rows (consistent with amount + fee)
     else:
         e1, h1 = acct_names(x["a1"])
         e2, h2 = acct_names(x["a2"])
